@@ -39,7 +39,9 @@ GRIDCFG = ['one-uniform', 'one-log', 'two-nested-uniform', 'two-offgrid-uniform'
            'two-samelen-ppm-uniform', 'two-samelen-ppm-log',
            # the second molecule is tabulated over the middle of the range only: requests wholly beyond one of its
            # ends see its edge value, exactly as the full computation does at those wavenumbers
-           'two-narrow-uniform', 'two-narrow-log']
+           'two-narrow-uniform', 'two-narrow-log',
+           # collision-induced absorption tabulated on its own, much coarser wavenumber grid
+           'one-uniform-cia', 'one-log-cia']
 MAGS = {'thin': 1e-31, 'tau1': 1e-27, 'mixed': 1.0, 'band': 1.0}
 
 
@@ -61,6 +63,11 @@ def install(cfg, mag, kind):
     OpacityCache().add_opacity(fx.TinyOp('H2O', nat, TG, PG, t1))
     grids = {'H2O': nat}
     tabs = {'H2O': t1}
+    if cfg.endswith('-cia'):
+        from taurex.cache import CIACache
+        cw = coarse('off', nat)
+        cx = fx.rng('c13cia').uniform(0.3, 3.0, size=(3, len(cw))) * (1e-54 if kind != 'emission' else 3e-56)
+        CIACache().add_cia(fx.TinyCIA('H2-He', cw, [100.0, 1000.0, 3500.0], cx))
     if cfg.startswith('two'):
         if 'narrow' in cfg:
             cg = (nat + 0.3 * np.gradient(nat))[12:28]
@@ -83,7 +90,8 @@ def build(case):
         gases.append(['CH4', ['const', 1e-4]])
     if 'coarsefirst' in case['cfg']:
         gases.reverse()
-    spec = {'kind': case['kind'], 'N': 4, 'T': ['dec'], 'gases': gases, 'contribs': ['abs', 'ray'], 'ngauss': 2}
+    contribs = ['abs', 'ray'] + ([['cia', ['H2-He']]] if case['cfg'].endswith('-cia') else [])
+    spec = {'kind': case['kind'], 'N': 4, 'T': ['dec'], 'gases': gases, 'contribs': contribs, 'ngauss': 2}
     return fx.build_model(spec)
 
 
